@@ -3,6 +3,8 @@
    implementation. Statements only. *)
 From Coq Require Import ZArith List Bool.
 From CP Require Import Core.Bytes Core.Result Prim.Int Base.Enum Frame.LVFrame Frame.Units Spec.PL Spec.TlsSpec Spec.TlsBounds.
+From CP Require Import Spec.Registry Lemmas.RegistryTables.
+From CPGen Require Import Tables.
 From CP Require Import Lemmas.IntLemmas Lemmas.PLLemmas Lemmas.TlsSpecLemmas Lemmas.TlsBoundsLemmas.
 Open Scope Z_scope.
 
@@ -41,3 +43,9 @@ Proof. exact bounds_match_true. Qed.
 (* 1/2/3-byte (and 4-byte) length prefixes are sized by the vector ceiling, for every vector class of the library *)
 Theorem C06_prefix_width : prefix_widths_ok = true.
 Proof. exact prefix_widths_ok_true. Qed.
+
+(* the code points of the content types, alert levels and descriptions, handshake types, certificate types, SSL 2.0 message
+   and error types declared by the live library are those of the specifications (registry written from the RFCs) *)
+Theorem C06_code_points_match_registry :
+  registry_agrees int_enum_members tls_registry = true /\ registry_covers int_enum_members tls_registry = true.
+Proof. exact tls_code_points. Qed.
